@@ -59,6 +59,16 @@ def _(c):
     c.req("no_stobads", "not truthy(self.options['stobads'])")
     c.req("forcing_nonneg", "self.optim_state['search_sufficient_improvement'] >= 0")
     c.req("sc_lt", "0 <= sc and sc < NT", props=["C03"])
+    # C18: what the search step hands to the hedge / ES search (options as documented; an existing hedge object is well formed)
+    from .search import hedge_wf, es_options, ES_OPTIONS_WF
+    es_options(c, "self.options")
+    c.ints("self.options['search_method'].__len__")
+    c.typ("self.search_es_hedge", nonnull=False)
+    c.req("c18_options_wf", ES_OPTIONS_WF.format("self.options") + " and self.options['search_method'].__len__ >= 1 and self.options['hedge_gamma'] >= 0 and "
+          "self.options['search_method'].__len__ * self.options['hedge_gamma'] <= 1", props=["C18"])
+    c.req("c18_hedge_wf", "implies(not isnone(self.search_es_hedge), " + hedge_wf(c, "self.search_es_hedge") + ")", props=["C18"])
+    c.req("c18_meshes_positive", "self.optim_state['tol_mesh'] > 0 and self.optim_state['search_mesh_size'] > 0", props=["C18"])
+    c.req("c18_search_box_nonempty", "forall(self.D, lambda j: self.optim_state['lb_search'][0][j] <= self.optim_state['ub_search'][0][j])", props=["C18"])
     # C03: one search attempt is always counted, and costs at most one evaluation (C18)
     c.ens("search_counted", "sc == old(sc) + 1", top=True, props=["C03"])
     c.ens("at_most_one_eval", "fc >= old(fc) and fc <= old(fc) + 1", top=True, props=["C03", "C18"])
@@ -76,7 +86,7 @@ def _(c):
     c.ens("u_is_best", "implies(" + DET + ", pteq(pt(self.u), pt(self.u_best)))", props=["C04", "C19"])
     inv_c04(c)
     inv_c02(c)
-    c10(c)
+    c10(c, extra=("IndexError",))  # ES search with an empty survivor set (recorded under C09): not a converted target failure
 
 
 @contract(B + ".optimize", serves=["C03", "C13"])
@@ -213,7 +223,7 @@ def _(c):
     # C01: the returned solution lies in the original hard box
     c.ens("returned_x_in_hard_box", "forall(self.D, lambda j: self.var_transf.orig_lb[0][j] <= self.x[j] and self.x[j] <= self.var_transf.orig_ub[0][j])",
           top=True, props=["C01"])
-    c10(c)
+    c10(c, extra=("IndexError",))
 
 
 @contract(B + "._init_optimization_", serves=["C03", "C05"])
